@@ -874,6 +874,60 @@ theorem writer_point_numbers_distinct (tents : List Tent) (ds : List GDelta) (t 
         obtain ⟨_, hasc⟩ := requiredIdx_head ds 0 (by omega) p0 ps hr
         exact sasc_nodup ps p0 hasc
 
+/-- **missing links 1 + 2 at the level of one written tuple** (explicit point numbers): the bytes the
+writer emits for a tuple whose kept set is `requiredIdx 0 ds = p0 :: ps` — packed point numbers `pb`,
+then `encodeDeltas` of the kept x deltas, then of the kept y deltas — satisfy every stream conjunct of
+`SparseWF`: skrifa's point iterator is the list of kept indices, the count matches, both
+`read_sparse_deltas` passes succeed, the numbers are distinct; and the values read are EXACTLY the
+input deltas of the kept points (`(ds.filter required).map x / y`): required deltas are exact. -/
+theorem written_sparse_tuple_stream_wf (ds : List GDelta) (p0 : Nat) (ps : List Nat)
+    (hpts : requiredIdx 0 ds = p0 :: ps) (hlen : ds.length ≤ 32767)
+    (hd : ∀ d ∈ ds, inI32 d.1 ∧ inI32 d.2.1)
+    (pb : List Nat) (hpb : ppnBytes (some (p0 :: ps)) = some pb) (junk rest : List Nat) :
+    ptIterOf (pb ++ junk) = .list (p0 :: ps) ∧
+    (countAndCountBytes (pb ++ junk)).1 = (p0 :: ps).length ∧
+    readSparse ((p0 :: ps).length + 1) 0 (p0 :: ps).length (.list (p0 :: ps))
+        (encodeDeltas ((ds.filter (·.2.2)).map (·.1)) ++ (encodeDeltas ((ds.filter (·.2.2)).map (·.2.1)) ++ rest))
+      = some ((p0 :: ps).zip ((ds.filter (·.2.2)).map (·.1)),
+          encodeDeltas ((ds.filter (·.2.2)).map (·.2.1)) ++ rest) ∧
+    readSparse ((p0 :: ps).length + 1) 0 (p0 :: ps).length (.list (p0 :: ps))
+        (encodeDeltas ((ds.filter (·.2.2)).map (·.2.1)) ++ rest)
+      = some ((p0 :: ps).zip ((ds.filter (·.2.2)).map (·.2.1)), rest) ∧
+    (p0 :: ps).Nodup ∧
+    ((ds.filter (·.2.2)).map (·.1)).length = (p0 :: ps).length ∧
+    ((ds.filter (·.2.2)).map (·.2.1)).length = (p0 :: ps).length := by
+  obtain ⟨hp0, hasc⟩ := requiredIdx_head ds 0 (by omega) p0 ps hpts
+  have hl : (p0 :: ps).length = (ds.filter (·.2.2)).length := by
+    rw [← hpts]; exact requiredIdx_length ds 0
+  have hfl : (ds.filter (·.2.2)).length ≤ ds.length := List.length_filter_le _ _
+  have hx : ∀ v ∈ (ds.filter (·.2.2)).map (·.1), inI32 v := by
+    intro v hv; obtain ⟨d, hd', rfl⟩ := List.mem_map.mp hv
+    exact (hd d (List.mem_of_mem_filter hd')).1
+  have hy : ∀ v ∈ (ds.filter (·.2.2)).map (·.2.1), inI32 v := by
+    intro v hv; obtain ⟨d, hd', rfl⟩ := List.mem_map.mp hv
+    exact (hd d (List.mem_of_mem_filter hd')).2
+  simp only [ppnBytes] at hpb
+  obtain ⟨_, h2, _⟩ := tupleDeltas_sparse p0 ps junk _ _ hp0 hasc (by omega) pb hpb hx hy
+    (by simp [hl]) (by simp [hl])
+  have hb : ∀ p ∈ p0 :: ps, p ≤ 65535 := by
+    intro p hp
+    rcases List.mem_cons.mp hp with rfl | hp
+    · exact hp0
+    · exact (sasc_bound ps p0 hasc p hp).2
+  have hpw : (p0 :: ps).Pairwise (· ≤ ·) := by
+    rw [List.pairwise_cons]
+    exact ⟨fun p hp => by have := sasc_bound ps p0 hasc p hp; omega, sasc_pairwise ps p0 hasc⟩
+  obtain ⟨bs, e1, e2, _⟩ := points_roundtrip (p0 :: ps) (by simp) (by omega) hb hpw junk
+  rw [hpb] at e1
+  injection e1 with e1
+  subst e1
+  obtain ⟨hvx, hcx⟩ := runsOf_props _ ((ds.filter (·.2.2)).map (·.1)) (Nat.le_refl _) hx
+  obtain ⟨hvy, hcy⟩ := runsOf_props _ ((ds.filter (·.2.2)).map (·.2.1)) (Nat.le_refl _) hy
+  have hxy := readSparse_xy (runsOf _ ((ds.filter (·.2.2)).map (·.1))) (runsOf _ ((ds.filter (·.2.2)).map (·.2.1)))
+    (p0 :: ps) rest hvx hvy (by unfold total; rw [hcx]; simp [hl]) (by unfold total; rw [hcy]; simp [hl])
+  rw [hcx, hcy] at hxy
+  exact ⟨by simp [ptIterOf, e2], h2, hxy.1, hxy.2, sasc_nodup ps p0 hasc, by simp [hl], by simp [hl]⟩
+
 /- FULL STATEMENT `written_then_applied_within_tolerance`: for every input to `Gvar::new` (tuples whose
 deltas went through `iup_delta_optimize` at tolerance τ), skrifa's output coordinate computed from the
 WRITTEN bytes is within `1/2 + Σ_t ((den_t − 1)/131072 + (s_t/65536)·τ)` of
